@@ -771,4 +771,90 @@ theorem roundtrip_spec (w : Wiring) (hm : w.Mir) (children : List Nat) (sigs : L
       simp [Wiring.roundtrip, Wiring.inList]
     rw [this, ← hm1 s r, hmem s r, hm s r]
 
+/-! ## Part E — edits: pull and replace_child -/
+
+theorem pull_spec (w : Wiring) (tree : List Nat) :
+    (∀ s, (w.pull true tree).out s = w.out s) ∧ (∀ r, (w.pull true tree).runIn r = w.runIn r) ∧
+    (∀ r, (w.pull true tree).accIn r = w.accIn r) := by
+  have key : ∀ (r : Nat) (l : List Sig), (if savedIn true tree r l = true then l
+      else if tree.contains r = true then [] else l.filter (fun s => !cutSig tree s)) = l := by
+    intro r l
+    by_cases hs : savedIn true tree r l = true
+    · simp [hs]
+    · simp only [hs, Bool.false_eq_true, ↓reduceIte]
+      simp only [savedIn, Bool.true_and, Bool.or_eq_true, not_or, Bool.not_eq_true] at hs
+      simp only [hs.1, Bool.false_eq_true, ↓reduceIte]
+      apply List.filter_eq_self.2
+      intro s hsm
+      have h2 := hs.2
+      rw [List.any_eq_false] at h2
+      have := h2 s hsm
+      simp only [cutSig, Bool.not_eq_eq_eq_not, Bool.not_true, Bool.and_eq_false_imp]
+      intro h; exact absurd h this
+  refine ⟨?_, ?_, ?_⟩
+  · intro s
+    simp only [Wiring.pull, Wiring.cut]
+    by_cases hs : savedOut true w tree s = true
+    · simp [hs]
+    · simp only [hs, Bool.false_eq_true, ↓reduceIte]
+      simp only [savedOut, Bool.true_and, Bool.or_eq_true, not_or, Bool.not_eq_true] at hs
+      have hc : cutSig tree s = false := by simp only [cutSig, hs.1, Bool.false_and]
+      simp only [hc, Bool.false_eq_true, ↓reduceIte]
+      apply List.filter_eq_self.2
+      intro r hr
+      have h2 := hs.2
+      rw [List.any_eq_false] at h2
+      simpa using h2 r hr
+  · intro r; exact key r (w.runIn r)
+  · intro r; exact key r (w.accIn r)
+
+theorem renSig_node (i j : Nat) (s : Sig) (h : sigNode s = i) : sigNode (renSig i j s) = j ∧ sigChan (renSig i j s) = sigChan s := by
+  have h' : s / 4 = i := h
+  simp only [renSig, sigNode, sigChan, h', ↓reduceIte]
+  constructor <;> omega
+
+theorem sig_decomp (s : Sig) : 4 * sigNode s + sigChan s = s := by
+  simp only [sigNode, sigChan]; omega
+
+theorem replace_spec (w : Wiring) (i j : Nat) (hij : i ≠ j)
+    (hself : ∀ s r, sigNode s = i → r ∈ w.out s → r.node ≠ i)
+    (hselfIn : ∀ s, (s ∈ w.runIn i ∨ s ∈ w.accIn i) → sigNode s ≠ i) :
+    (∀ s, sigNode s ≠ j → (w.replace false i j).out (renSig i j s) = (w.out s).map (renRecv i j)) ∧
+    (∀ r, r ≠ j → (w.replace false i j).runIn (if r = i then j else r) = (w.runIn r).map (renSig i j)) ∧
+    (∀ r, r ≠ j → (w.replace false i j).accIn (if r = i then j else r) = (w.accIn r).map (renSig i j)) := by
+  have idRecv : ∀ s, sigNode s = i → (w.out s).map (renRecv i j) = w.out s := by
+    intro s hs
+    conv => rhs; rw [← List.map_id (w.out s)]
+    apply List.map_congr_left
+    intro r hr
+    have := hself s r hs hr
+    simp [renRecv, this]
+  have idSig : ∀ l : List Sig, (∀ s ∈ l, sigNode s ≠ i) → l.map (renSig i j) = l := by
+    intro l hl
+    conv => rhs; rw [← List.map_id l]
+    apply List.map_congr_left
+    intro s hs
+    simp [renSig, hl s hs]
+  refine ⟨?_, ?_, ?_⟩
+  · intro s hsj
+    by_cases hsi : sigNode s = i
+    · obtain ⟨h1, h2⟩ := renSig_node i j s hsi
+      simp only [Wiring.replace, h1, ↓reduceIte, h2, Bool.false_eq_true]
+      have : 4 * i + sigChan s = s := by rw [← hsi]; exact sig_decomp s
+      rw [this, idRecv s hsi]
+    · have : renSig i j s = s := by simp [renSig, hsi]
+      simp only [Wiring.replace, this, hsj, hsi, ↓reduceIte]
+  · intro r hrj
+    by_cases hri : r = i
+    · subst hri
+      simp only [Wiring.replace, ↓reduceIte, Bool.false_eq_true]
+      exact (idSig _ (fun s hs => hselfIn s (Or.inl hs))).symm
+    · simp only [hri, ↓reduceIte, Wiring.replace, hrj]
+  · intro r hrj
+    by_cases hri : r = i
+    · subst hri
+      simp only [Wiring.replace, ↓reduceIte, Bool.false_eq_true]
+      exact (idSig _ (fun s hs => hselfIn s (Or.inr hs))).symm
+    · simp only [hri, ↓reduceIte, Wiring.replace, hrj]
+
 end PwVerif.Signal
